@@ -262,3 +262,112 @@ def check_bbox_symmetry(ctx, rep, rule='I-ranges'):
     rep.ob(rule, 'bbox:min=max-of-starts,max=min-of-ends', bool(sigs) and not bad,
            'get_intersection_bounding_box must intersect the two segments\' boxes per axis (one coordinate of a and one of b in each '
            'min/max); wrong for %s' % bad, loc=b.loc(b.j['line_lo']), reason='table-row')
+
+
+def check_algebra(ctx, rep, rule='I-algebra'):
+    """The points intersection_impl reports, as exact rational functions of the eight input coordinates (helpers inlined):
+    crossing arm: the point equals the intersection X of the two carrier lines; collinear arm (b1 = a1 + L*va,
+    b2 = a1 + M*va substituted): every point the min/max clamp can select is an endpoint of one of the segments, and
+    both b-endpoints are selectable."""
+    from rules import ratfun
+    from rules.ratfun import var, const, NotRational
+    b, ps = rep.explore(ctx, IMPL, rule)
+    if b is None:
+        return
+    A1, A2, B1, B2 = [(var('%s.x' % n), var('%s.y' % n)) for n in ('a1', 'a2', 'b1', 'b2')]
+    va = (A2[0] - A1[0], A2[1] - A1[1])
+    vb = (B2[0] - B1[0], B2[1] - B1[1])
+    e = (B1[0] - A1[0], B1[1] - A1[1])
+    cross = lambda p, q: p[0] * q[1] - p[1] * q[0]
+    kross = cross(va, vb)
+    s = cross(e, vb) / kross
+    X = (A1[0] + s * va[0], A1[1] + s * va[1])
+    col = cross(e, va)
+    L, M = ratfun.pvar('L'), ratfun.pvar('M')
+    dx = ratfun.padd(ratfun.pvar('a2.x'), ratfun.pvar('a1.x'), -1)
+    dy = ratfun.padd(ratfun.pvar('a2.y'), ratfun.pvar('a1.y'), -1)
+    env = {'b1.x': ratfun.padd(ratfun.pvar('a1.x'), ratfun.pmul(L, dx)), 'b1.y': ratfun.padd(ratfun.pvar('a1.y'), ratfun.pmul(L, dy)),
+           'b2.x': ratfun.padd(ratfun.pvar('a1.x'), ratfun.pmul(M, dx)), 'b2.y': ratfun.padd(ratfun.pvar('a1.y'), ratfun.pmul(M, dy))}
+    ends = {'a1': A1, 'a2': A2, 'b1': (B1[0].subst(env), B1[1].subst(env)), 'b2': (B2[0].subst(env), B2[1].subst(env))}
+    n_cross = n_col = 0
+    seen = set()
+    selectable = set()
+    for p in ps:
+        if p.end != 'return':
+            continue
+        r = strip_upd(p.ret)
+        if r[0] != 'agg' or r[2] not in ('Point', 'Overlap'):
+            continue
+        # which arm: the truth of the tests "kross (or its square) is non-zero" / "cross(e, va) (or its square) is non-zero"
+        arm = None
+        collinear_tested = False
+        try:
+            for (v, c) in p.conds:
+                x = strip_upd(v)
+                if x[0] != 'op' or len(x) != 4 or x[1] not in ('gt', 'ne', 'eq', 'lt'):
+                    continue
+                try:
+                    lhs, rhs = ratfun.single(x[2]), ratfun.single(x[3])
+                except NotRational:
+                    continue
+                other = lhs if rhs.is_zero() else rhs if lhs.is_zero() else None
+                if other is None:
+                    continue
+                nonzero = c[1] if x[1] in ('gt', 'ne', 'lt') else (not c[1])
+                if other.proportional(kross) or other.proportional(kross * kross):
+                    if x[1] in ('gt', 'lt') and other.proportional(kross) and not other.proportional(kross * kross):
+                        continue        # a sign test of kross is not a non-zero test
+                    arm = 'crossing' if nonzero else (arm or 'parallel')
+                elif other.proportional(col) or other.proportional(col * col):
+                    if not nonzero:
+                        collinear_tested = True
+            pts = [strip_upd(q) for q in r[4]]
+            coords = []
+            for q in pts:
+                if q[0] != 'agg' or len(q[4]) != 2:
+                    raise NotRational('reported point is not a coordinate pair: %s' % show(noepoch(q))[:60])
+                coords.append((ratfun.alternatives(q[4][0]), ratfun.alternatives(q[4][1])))
+        except NotRational as ex:
+            rep.ob(rule, 'rational:%s' % r[2], False, 'a point reported by intersection_impl is not a rational function of the inputs: %s' % ex,
+                   loc=b.loc(b.j['line_lo']), reason='cannot-tabulate')
+            continue
+        if arm == 'crossing':
+            n_cross += 1
+            ok = r[2] == 'Point' and len(coords) == 1 and len(coords[0][0]) == 1 and len(coords[0][1]) == 1 \
+                and coords[0][0][0].same(X[0]) and coords[0][1][0].same(X[1])
+            key = ('crossing', ok)
+            if key not in seen:
+                seen.add(key)
+                rep.ob(rule, 'crossing-point-is-the-line-intersection', ok,
+                       'on a path where the carrier lines are not parallel the reported point must equal, as a rational function of the '
+                       'inputs, a1 + ((b1-a1)x(b2-b1) / (a2-a1)x(b2-b1)) * (a2-a1); it does not (%s)' % show(noepoch(r))[:160],
+                       loc=b.loc(b.j['line_lo']), reason='table-row')
+        else:
+            n_col += 1
+            ok = collinear_tested and arm == 'parallel'
+            bad = []
+            for i, (xs, ys) in enumerate(coords):
+                if len(xs) != len(ys):
+                    ok = False
+                    continue
+                for ax, ay in zip(xs, ys):
+                    sx, sy = ax.subst(env), ay.subst(env)
+                    hit = [nm for nm, (ex_, ey_) in ends.items() if sx.same(ex_) and sy.same(ey_)]
+                    if not hit:
+                        ok = False
+                        bad.append(i)
+                    else:
+                        selectable.update(hit)
+            key = ('collinear', r[2], ok)
+            if key not in seen:
+                seen.add(key)
+                rep.ob(rule, 'collinear-%s-points-are-segment-endpoints' % r[2].lower(), ok,
+                       'in the collinear arm (reached only after both cross products tested zero: parallel=%s collinear=%s) every point the '
+                       'clamp can select must be an endpoint of one of the two segments when b1 = a1 + L*(a2-a1), b2 = a1 + M*(a2-a1); '
+                       'points %s are not' % (arm == 'parallel', collinear_tested, sorted(set(bad))), loc=b.loc(b.j['line_lo']), reason='table-row')
+    rep.ob(rule, 'collinear-arm-can-report-both-b-endpoints', n_col == 0 or {'b1', 'b2'} <= selectable,
+           'the overlap of collinear segments must be able to start / end at either endpoint of b; selectable endpoints: %s' % sorted(selectable),
+           loc=b.loc(b.j['line_lo']), reason='table-row')
+    rep.floor(rule, 'crossing-arm point returns', n_cross, 5)
+    rep.floor(rule, 'collinear-arm point returns', n_col, 3)
+    rep.rows_compared += n_cross + n_col
